@@ -203,6 +203,16 @@ func specMentions(fs *spec.FuncSpec, prop string) bool {
 			}
 		}
 	}
+	for _, c := range fs.Census {
+		if has(c.Tag) {
+			return true
+		}
+	}
+	for _, m := range fs.Monitors {
+		if m.Inv != nil && has(m.Inv.Tag) {
+			return true
+		}
+	}
 	return false
 }
 
@@ -446,6 +456,12 @@ func (w *World) VerifyWith(u *Unit, classes map[string][]string) (res *UnitResul
 			out = append(out, &o1, &o2)
 		}
 		e.obls = out
+	}
+	// write-site censuses attached to the unit
+	if u.Spec != nil {
+		for _, c := range u.Spec.Census {
+			x.census(u, c)
+		}
 	}
 	// call-site and loop clauses that matched nothing: their assertions were never checked, which is a failure of
 	// the clause (the contract says the call / loop exists)
@@ -959,5 +975,79 @@ func (x *exec) refinementCheck(st *State, u *Unit, rets []Value) {
 					cl.Text+"   [model contract of "+iface+"."+fn.Name()+", ghost fields read through their represents expressions]", cl.Pos.String(), g)
 			}()
 		}
+	}
+}
+
+
+// census checks a write-site census on the SSA of the whole module and records the outcome as one obligation per field.
+func (x *exec) census(u *Unit, c *spec.Census) {
+	e := x.e
+	w := e.w
+	allowed := map[string]bool{}
+	for _, wr := range c.Writers {
+		allowed[x.resolveCalleeName(u.Spec.Pkg, wr)] = true
+	}
+	root := func(fn *ssa.Function) string {
+		for fn.Parent() != nil {
+			fn = fn.Parent()
+		}
+		return FuncKey(fn)
+	}
+	for _, fld := range c.Fields {
+		// (*T).f or T.f
+		i := strings.LastIndex(fld, ".")
+		if i < 0 {
+			specErr("census: bad field %q", fld)
+		}
+		tn := strings.TrimSuffix(strings.TrimPrefix(strings.TrimPrefix(fld[:i], "("), "*"), ")")
+		fname := fld[i+1:]
+		var offenders []string
+		for _, fn := range w.allFuncs {
+			if fn.Blocks == nil || allowed[root(fn)] || allowed[FuncKey(fn)] {
+				continue
+			}
+			hit := false
+			for _, b := range fn.Blocks {
+				for _, ins := range b.Instrs {
+					var addr ssa.Value
+					switch in := ins.(type) {
+					case *ssa.Store:
+						addr = in.Addr
+					case ssa.CallInstruction:
+						cc := in.Common()
+						if f := cc.StaticCallee(); f != nil && len(cc.Args) > 0 && isIntrinsicKey(FuncKey(f)) {
+							if m := f.Name(); m != "Load" && m != "RLock" && m != "RUnlock" {
+								addr = cc.Args[0]
+							}
+						}
+					}
+					for addr != nil {
+						fa, ok := addr.(*ssa.FieldAddr)
+						if !ok {
+							break
+						}
+						pt, _ := types.Unalias(fa.X.Type()).Underlying().(*types.Pointer)
+						if pt != nil {
+							if n, ok := types.Unalias(pt.Elem()).(*types.Named); ok && n.Obj().Name() == tn && n.Obj().Pkg() != nil && n.Obj().Pkg().Path() == u.Spec.Pkg {
+								if st, ok := n.Underlying().(*types.Struct); ok && st.Field(fa.Field).Name() == fname {
+									hit = true
+								}
+							}
+						}
+						addr = fa.X
+					}
+				}
+			}
+			if hit {
+				offenders = append(offenders, shortKey(FuncKey(fn)))
+			}
+		}
+		sort.Strings(offenders)
+		text := fld + " is written only by " + strings.Join(c.Writers, ", ")
+		if len(offenders) > 0 {
+			text += "   [also written by: " + strings.Join(offenders, ", ") + "]"
+		}
+		e.obls = append(e.obls, &Obligation{Unit: u.Name, Name: u.Name + "/census:" + fld, Kind: "census", Tag: c.Tag, Text: text, Pos: c.Pos.String(),
+			PC: u.entry.pc[:len(u.entry.pc):len(u.entry.pc)], Goal: smt.BoolLit(len(offenders) == 0)})
 	}
 }
